@@ -40,10 +40,10 @@ CHECK_DEADLOCK FALSE
 """
 
 
-def gen(ctx, cfg, expect_min):
+def gen(ctx, cfg, expect_min, module="Names_gen.tla"):
     # the generator re-enumerates names the (M) run has already counted: keep its
     # states out of coverage.states/transitions, list the run separately
-    r = ctx.tlc("Names_gen.tla", cfg, timeout=1500, label="gen", count=False)
+    r = ctx.tlc(module, cfg, timeout=1500, label="gen", count=False)
     ctx.cov.setdefault("gen_runs", []).append({"cfg": cfg, "generated": r.generated, "distinct": r.distinct, "wall_s": round(r.wall, 1)})
     cases = r.printed_json("case")
     del r
@@ -99,6 +99,10 @@ def run(ctx):
         expect = 2015539
     if stats["n"] != expect:
         raise vlib.Infra("replayed %d names, expected all %d" % (stats["n"], expect))
+    # chunk exploration: names of up to 4 whole segments (repeated keys, extended keys, empty values)
+    chunk_cases = gen(ctx, "Names_gen_chunks.cfg", 3000, module="Names_chunks.tla")
+    replay_cases(ctx, chunk_cases, stats)
+    ctx.cov["chunk_names"] = len(chunk_cases)
     ctx.cov["distinct_nontrivial"] = stats["nontrivial"]
     ctx.cov["names_with_gomaxprocs_part"] = stats["gmp"]
     ctx.cov["names_where_explicit_gomaxprocs_segment_decides"] = stats["explicit"]
